@@ -115,6 +115,22 @@ static int hwloc_append_diff_obj_attr_uint64(hwloc_obj_t obj,
 	return 0;
 }
 
+/* A diff entry designates an info pair by its name and old value, and applies to the first pair that matches.
+ * It cannot designate pair #i if an earlier pair with the same name has (or will have, once patched) the value
+ * that apply looks for, either in normal or in reverse direction.
+ */
+static int
+hwloc_diff_info_is_ambiguous(struct hwloc_infos_s *infos1, struct hwloc_infos_s *infos2, unsigned i)
+{
+	unsigned j;
+	for(j=0; j<i; j++)
+		if (!strcmp(infos1->array[j].name, infos1->array[i].name)
+		    && (!strcmp(infos2->array[j].value, infos1->array[i].value)
+			|| !strcmp(infos1->array[j].value, infos2->array[i].value)))
+			return 1;
+	return 0;
+}
+
 static int
 hwloc_diff_trees(hwloc_topology_t topo1, hwloc_obj_t obj1,
 		 hwloc_topology_t topo2, hwloc_obj_t obj2,
@@ -223,6 +239,8 @@ hwloc_diff_trees(hwloc_topology_t topo1, hwloc_obj_t obj1,
 		if (strcmp(info1->name, info2->name))
 			goto out_too_complex;
 		if (strcmp(info1->value, info2->value)) {
+			if (hwloc_diff_info_is_ambiguous(&obj1->infos, &obj2->infos, i))
+				goto out_too_complex;
                         err = hwloc_append_diff_obj_attr_string(topo1, obj1,
 								HWLOC_TOPOLOGY_DIFF_OBJ_ATTR_INFO,
 								info1->name,
@@ -351,6 +369,8 @@ int hwloc_topology_diff_build(hwloc_topology_t topo1,
             if (strcmp(info1->name, info2->name))
               goto roottoocomplex;
             if (strcmp(info1->value, info2->value)) {
+              if (hwloc_diff_info_is_ambiguous(&topo1->infos, &topo2->infos, i))
+                goto roottoocomplex;
               err = hwloc_append_diff_obj_attr_string(topo1, NULL,
                                                       HWLOC_TOPOLOGY_DIFF_OBJ_ATTR_INFO,
                                                       info1->name,
